@@ -19,8 +19,9 @@ EXTENDS Integers, Sequences, FiniteSets, TLC, Json, IOUtils
 
 Tr == ndJsonDeserialize(IOEnv.TRACE)
 
-VARIABLES l, begun, done     \* position; sets of <<stage, row, col>>
-vars == <<l, begun, done>>
+VARIABLES l, begun, done,    \* position; sets of <<stage, row, col>>
+          parsed             \* set of <<row, first column of the tile>>: superblock rows of a tile whose parsing is complete
+vars == <<l, begun, done, parsed>>
 
 Ev == Tr[l]
 IsEv(e) == l <= Len(Tr) /\ Ev.ev = e /\ l' = l + 1
@@ -32,10 +33,16 @@ Min(a, b) == IF a < b THEN a ELSE b
 Needs(s, r, c, dep, last, first) ==
   (IF c > first THEN {<<s, r, c - 1>>} ELSE {}) \cup (IF dep THEN {<<s, r - 1, Min(c + 1, last)>>} ELSE {})
 
-Init == l = 1 /\ begun = {} /\ done = {}
+Init == l = 1 /\ begun = {} /\ done = {} /\ parsed = {}
 
-Reset == IsEv("Reset") /\ begun' = {} /\ done' = {}
-SbRst == IsEv("SbRst") /\ begun = done /\ begun' = {} /\ done' = {}       \* nothing of the previous frame is still in flight
+Reset == IsEv("Reset") /\ begun' = {} /\ done' = {} /\ parsed' = {}
+SbRst == IsEv("SbRst") /\ begun = done /\ begun' = {} /\ done' = {} /\ parsed' = {}      \* nothing of the previous frame is still in flight
+
+(* PrsRow row first: the parser finished superblock row `row` of the tile that starts at column `first` (emitted before the
+   sb_recon_row_parsed flag is stored); reconstruction of that tile row spins on the flag *)
+PrsRow == /\ IsEv("PrsRow") /\ <<Arg(1), Arg(2)>> \notin parsed
+          /\ parsed' = parsed \cup {<<Arg(1), Arg(2)>>}
+          /\ UNCHANGED <<begun, done>>
 
 SbBeg ==
   /\ IsEv("SbBeg")
@@ -45,17 +52,18 @@ SbBeg ==
        /\ s \in 0 .. 3 /\ r >= 0 /\ c >= first /\ c <= last
        /\ <<s, r, c>> \notin begun
        /\ Needs(s, r, c, dep, last, first) \subseteq done
+       /\ (s = 0 => <<r, first>> \in parsed)             \* recon only of a completely parsed tile row
        /\ begun' = begun \cup {<<s, r, c>>}
-  /\ UNCHANGED done
+  /\ UNCHANGED <<done, parsed>>
 
 SbEnd ==
   /\ IsEv("SbEnd")
   /\ LET k == <<Arg(1), Arg(2), Arg(3)>> IN
        /\ k \in begun /\ k \notin done
        /\ done' = done \cup {k}
-  /\ UNCHANGED begun
+  /\ UNCHANGED <<begun, parsed>>
 
-Next == Reset \/ SbRst \/ SbBeg \/ SbEnd
+Next == Reset \/ SbRst \/ PrsRow \/ SbBeg \/ SbEnd
 Spec == Init /\ [][Next]_vars
 TraceAccepted == TLCGet("stats").diameter - 1 = Len(Tr)
 =============================================================================
